@@ -77,6 +77,9 @@ def gate_ref(gd, N, lib_gate=None):
     if kind == 'rot':
         gl, gk = ref.parse(gd['gen'])
         return ref.rotation_clifford(gl, gk).embed(sorted(q), N)
+    if kind == 'rotc':
+        gl, gk = ref.parse(gd['gen'])
+        return ref.rotation_clifford(gl, gk)
     if kind == 'fmap':
         return dec_clifford(gd['rows']).embed(sorted(q), N)
     if kind == 'bmap':
@@ -104,8 +107,21 @@ def gate_lib(gd, be='np'):
     if kind == 'rot':
         gl, gk = ref.parse(gd['gen'])
         g = cm.CliffordGate(*q)
-        g.set_generator(Bk.pauli(gl, gk))
+        if gd.get('genform') == 'monomial' and be == 'np':
+            g.set_generator(Bk.mods()['p'].PauliMonomial(B.np_g(gl), int(gk)))
+        else:
+            g.set_generator(Bk.pauli(gl, gk))
         return g
+    if kind == 'rotc':
+        gl, gk = ref.parse(gd['gen'])
+        form = gd.get('form', 'pauli')
+        if form == 'str':
+            genobj = ('-' if gk == 2 else '') + gd['gen'][1:]
+        elif form.startswith('monomial') and be == 'np':
+            genobj = Bk.mods()['p'].PauliMonomial(B.np_g(gl), int(gk)).set_c(1.0 if form == 'monomial' else 0.5)
+        else:
+            genobj = Bk.pauli(gl, gk)
+        return cm.clifford_rotation_gate(genobj)
     if kind == 'fmap':
         g = cm.CliffordGate(*q)
         g.set_forward_map(Bk.cmap(dec_clifford(gd['rows'])))
